@@ -406,6 +406,63 @@ where
     }
 }
 
+/// Public entries to the private steps of [`IncreasePosition`], used only by the solver-based
+/// checks in `/verif` (`--cfg gmsol_verif`). Thin wrappers: no behaviour of their own.
+#[cfg(gmsol_verif)]
+impl<const DECIMALS: u8, P: PositionMut<DECIMALS>> IncreasePosition<P, DECIMALS>
+where
+    P::Market: PerpMarketMut<DECIMALS, Num = P::Num, Signed = P::Signed>,
+{
+    /// See `initialize_position_if_empty`.
+    pub fn verif_initialize_position_if_empty(&mut self) -> crate::Result<()> {
+        self.initialize_position_if_empty()
+    }
+
+    /// See `get_execution_params`.
+    #[allow(clippy::type_complexity)]
+    pub fn verif_get_execution_params(
+        &self,
+    ) -> crate::Result<(ExecutionParams<P::Num, P::Signed>, PriceImpact<P::Signed>)> {
+        let ExecutionParamsWithPriceImpact {
+            execution,
+            price_impact,
+        } = self.get_execution_params()?;
+        Ok((execution, price_impact))
+    }
+
+    /// See `process_collateral`.
+    pub fn verif_process_collateral(
+        &mut self,
+        price_impact: &PriceImpact<P::Signed>,
+    ) -> crate::Result<(P::Signed, PositionFees<P::Num>)> {
+        self.process_collateral(price_impact)
+    }
+
+    /// The position.
+    pub fn verif_position(&self) -> &P {
+        &self.position
+    }
+}
+
+/// See `get_execution_price_for_increase`.
+#[cfg(gmsol_verif)]
+pub fn verif_get_execution_price_for_increase<T>(
+    size_delta_usd: &T,
+    size_delta_in_tokens: &T,
+    acceptable_price: Option<&T>,
+    is_long: bool,
+) -> crate::Result<T>
+where
+    T: num_traits::Num + Ord + Clone + CheckedDiv,
+{
+    get_execution_price_for_increase(
+        size_delta_usd,
+        size_delta_in_tokens,
+        acceptable_price,
+        is_long,
+    )
+}
+
 fn get_execution_price_for_increase<T>(
     size_delta_usd: &T,
     size_delta_in_tokens: &T,
